@@ -197,7 +197,10 @@ def _entry_outside_try(ck, repo):
             if isinstance(st, (ast.Try, ast.AsyncFor)) or (isinstance(st, ast.Expr) and isinstance(st.value, ast.Constant)):
                 continue   # the catch-all (execute) / the stream of the executor, whose failures are the consumer's (subscribe)
             outside.append(st)
-        calls = [c for st in outside for c in ast.walk(st) if isinstance(c, (ast.Call, ast.Await, ast.Subscript, ast.BinOp))]
+        def _logging(c):
+            return isinstance(c, ast.Call) and isinstance(c.func, ast.Attribute) and unparse(c.func.value).lower() in ("logger", "logging", "log", "_logger") and \
+                all(isinstance(a, (ast.Constant, ast.Name)) for a in c.args)
+        calls = [c for st in outside for c in ast.walk(st) if isinstance(c, (ast.Call, ast.Await, ast.Subscript, ast.BinOp)) and not _logging(c)]
         pc = [c for c in calls if isinstance(c, ast.Call) and callee_last(c) == "_cached_parse_and_validate_query"]
         ok = len(tries) == (1 if name == "Engine.execute" else 0) and len(pc) == 1 and [unparse(a) for a in pc[0].args] == [f.positional_params[1], "self._schema"] and not pc[0].keywords and \
             [c for c in calls if c is not pc[0]] == []
